@@ -8,7 +8,8 @@ Import ListNotations.
 Local Open Scope list_scope.
 
 (* ---------- the tiny template language *)
-Inductive tpart := PLit (s : string) | PVar (k : string).      (* "text" | "{{ .k }}" *)
+Inductive tpart := PLit (s : string) | PVar (k : string) | PPath (ks : list string).
+                                                   (* "text" | "{{ .k }}" | "{{ .k1.k2.k3 }}" *)
 Definition tmpl := list tpart.
 
 (* text/template prints a missing map key as "<no value>"; containers/lists are not referenced *)
@@ -18,12 +19,32 @@ Definition render_var (k : string) (data : list (string * node)) : string :=
   | Some _ => "<composite>"%string
   | None => "<no value>"%string
   end.
+(* a chain of member accesses through nested maps (only generated where every member exists) *)
+Fixpoint render_path (ks : list string) (data : list (string * node)) : string :=
+  match ks with
+  | [] => "<composite>"%string
+  | [k] => render_var k data
+  | k :: r => match kv_get k data with Some (Con s) => render_path r s | _ => "<no value>"%string end
+  end.
 Fixpoint render (t : tmpl) (data : list (string * node)) : string :=
   match t with
   | [] => ""%string
   | PLit s :: r => (s ++ render r data)%string
   | PVar k :: r => (render_var k data ++ render r data)%string
+  | PPath ks :: r => (render_path ks data ++ render r data)%string
   end.
+
+(* call arguments: a map of templates, one level of nested maps of templates
+   (templateEngine.RenderMapLenient renders every string leaf against the snapshot taken when the
+   call starts; DefaultNodeDecoderFn turns the rendered map into a document) *)
+Inductive carg := ALeaf (t : tmpl) | ASub (kvs : list (string * tmpl)).
+Definition render_arg (data : list (string * node)) (a : carg) : node :=
+  match a with
+  | ALeaf t => Leaf (SStr (render t data))
+  | ASub kvs => Con (fold_left (fun acc e => add (fst e) (Leaf (SStr (render (snd e) data))) acc) kvs [])
+  end.
+Definition args_doc (args : list (string * carg)) (data : list (string * node)) : node :=
+  Con (fold_left (fun acc e => add (fst e) (render_arg data (snd e)) acc) args []).
 
 (* templateEngine.EvalBool: strconv.ParseBool(strings.TrimSpace(rendered)) — exactly twelve spellings *)
 Definition parse_bool (s : string) : option bool :=
@@ -91,7 +112,7 @@ Inductive src := SItems (items : list string) | SQuery (path : string).
 Inductive op :=
 | OpSet (strat : strategy) (path : string) (payload : option (list (string * gval)))
 | OpTemplate (t : tmpl) (path : string)
-| OpCall (name : string) (args_path : string) (args : list (string * string))
+| OpCall (name : string) (args_path : string) (args : list (string * carg))
 | OpDefine (name : string) (body : action)
 | OpTrace (id : string)                                              (* ext: a registered trace function *)
 | OpForEach (s : src) (var : string) (body : action)
@@ -222,7 +243,7 @@ Definition run_op (run_ops_of : list op -> state -> state * status) (o : op) (st
       match reg_get name (st_reg st) with
       | None => (st, SErr)
       | Some spec =>
-          let argdoc := Con (fold_left (fun acc e => add (fst e) (Leaf (SStr (snd e))) acc) args []) in
+          let argdoc := args_doc args (st_data st) in
           let st1 := with_data (add_value_at ap argdoc (st_data st)) st in
           let '(st2, r) := rec spec st1 in
           (with_data (remove_at ap (st_data st2)) st2, r)            (* defer RemoveAt(argsPath) *)
